@@ -527,16 +527,16 @@ func c05Run(w *c05World, rec *vu.Recorder, script []c05Op) {
 // (shadow state below only steers generation towards histories the informer / scheduler can deliver; it never judges)
 
 type c05Gen struct {
-	rng   *rand.Rand
-	big   bool
-	ext   bool                // also generate the extended multi-scheduler transition (same uid moves to another node)
-	api   map[string]*c05Op   // API object per reservation uid (absent = not created / deleted)
-	asm   map[string]string   // reserve pod assumed on node (Reserve done, Bind pending)
-	pods  map[string]*c05PodObj
-	pasm  map[string]string // owner pod assumed on reservation
-	out   []c05Op
-	nR    int
-	nP    int
+	rng  *rand.Rand
+	big  bool
+	ext  bool              // also generate the extended multi-scheduler transition (same uid moves to another node)
+	api  map[string]*c05Op // API object per reservation uid (absent = not created / deleted)
+	asm  map[string]string // reserve pod assumed on node (Reserve done, Bind pending)
+	pods map[string]*c05PodObj
+	pasm map[string]string // owner pod assumed on reservation
+	out  []c05Op
+	nR   int
+	nP   int
 }
 
 var c05Apps = []string{"a", "b"}
@@ -568,7 +568,7 @@ func (g *c05Gen) vec(max int64, allowPods bool) c05Vec {
 
 func (g *c05Gen) owners() ([]c05Owner, bool) {
 	pod := fmt.Sprintf("p%d", 1+g.rng.Intn(g.nP))
-	switch g.rng.Intn(12) {
+	switch g.rng.Intn(18) {
 	case 0:
 		return nil, false // matches nothing
 	case 1:
@@ -591,8 +591,11 @@ func (g *c05Gen) owners() ([]c05Owner, bool) {
 		return []c05Owner{{Sel: "b"}, {Obj: pod}}, false
 	case 10:
 		return []c05Owner{{Sel: "a"}, {Sel: "b"}}, false
-	default:
+	case 11:
 		return []c05Owner{{Sel: "a"}}, true // one good term and one unparsable term
+	default:
+		return []c05Owner{{}}, false
+
 	}
 }
 
@@ -636,11 +639,16 @@ func (g *c05Gen) both(a, b *c05Op) {
 func (g *c05Gen) reservationStep() {
 	u := fmt.Sprintf("r%d", 1+g.rng.Intn(g.nR))
 	cur := g.api[u]
+	if n, ok := g.asm[u]; ok && cur == nil { // the object vanished during the binding cycle: Unreserve cleans up with a stub
+		delete(g.asm, u)
+		g.emit(c05Op{Op: "rForget", R: u, Node: n, Phase: "Pending", Policy: "Default", Alloc: c05Vec{}, Reserved: c05Vec{}})
+		return
+	}
 	if cur == nil {
 		o := &c05Op{R: u, Phase: "Pending"}
 		g.spec(o)
 		g.api[u] = o
-		if g.rng.Intn(4) == 0 { // a reservation that is already available when this scheduler first sees it
+		if g.rng.Intn(2) == 0 { // a reservation that is already available when this scheduler first sees it
 			o.Phase, o.Node = "Available", c05Nodes[g.rng.Intn(2)]
 		}
 		g.emit(g.robj("rAdd", o))
@@ -658,14 +666,14 @@ func (g *c05Gen) reservationStep() {
 		}
 		return
 	}
-	switch k := g.rng.Intn(12); {
-	case cur.Phase == "Pending" && k < 6: // Reserve of the reserve pod
+	switch k := g.rng.Intn(15); {
+	case cur.Phase == "Pending" && k < 8: // Reserve of the reserve pod
 		n := c05Nodes[g.rng.Intn(2)]
 		g.asm[u] = n
 		asm := *cur
 		asm.Node = n
 		g.emit(g.robj("rAssume", &asm))
-	case k < 3: // spec / annotation / status.allocatable change, same phase and node
+	case k < 4: // spec / annotation / status.allocatable change, same phase and node
 		old := *cur
 		switch g.rng.Intn(6) {
 		case 0:
@@ -683,7 +691,7 @@ func (g *c05Gen) reservationStep() {
 		}
 		_ = old
 		g.emit(g.robj("rUpdate", cur))
-	case k == 3: // resync
+	case k == 4 && g.rng.Intn(2) == 0: // resync
 		g.emit(g.robj("rUpdate", cur))
 	case k == 4 && !cur.Term: // deletion timestamp set (finalizer pending)
 		cur.Term = true
@@ -716,7 +724,7 @@ func (g *c05Gen) reservationStep() {
 		del := g.robj("rCacheDelete", &old)
 		del.Tag = "migrate"
 		g.both(&upd, &del)
-	case k >= 9: // object deleted
+	case k >= 9 && k < 11: // object deleted
 		delete(g.api, u)
 		d := g.robj("rDelete", cur)
 		var del *c05Op
@@ -737,19 +745,47 @@ func (g *c05Gen) podObj(id string) *c05PodObj {
 
 func (g *c05Gen) anyR() string { return fmt.Sprintf("r%d", 1+g.rng.Intn(g.nR)) }
 
+// likelyR prefers a reservation the cache probably holds (available or assumed)
+func (g *c05Gen) likelyR() string {
+	var c []string
+	for i := 1; i <= g.nR; i++ {
+		u := fmt.Sprintf("r%d", i)
+		if r := g.api[u]; (r != nil && r.Phase == "Available") || g.asm[u] != "" {
+			c = append(c, u)
+		}
+	}
+	if len(c) == 0 || g.rng.Intn(5) == 0 {
+		return g.anyR()
+	}
+	return c[g.rng.Intn(len(c))]
+}
+
+func (g *c05Gen) nodeOf(u string) string {
+	if r := g.api[u]; r != nil && r.Node != "" {
+		return r.Node
+	}
+	if n := g.asm[u]; n != "" {
+		return n
+	}
+	return c05Nodes[g.rng.Intn(2)]
+}
+
 func (g *c05Gen) podStep() {
 	id := fmt.Sprintf("p%d", 1+g.rng.Intn(g.nP))
 	cur := g.pods[id]
+	if u, ok := g.pasm[id]; ok && cur == nil { // the pod vanished during the binding cycle: Unreserve
+		delete(g.pasm, id)
+		g.emit(c05Op{Op: "forget", R: u, c05PodObj: *g.podObj(id)})
+		return
+	}
 	if cur == nil {
 		cur = g.podObj(id)
 		g.pods[id] = cur
 		if g.rng.Intn(3) == 0 { // first seen already bound (other scheduler / restart), maybe holding a reservation
 			cur.PNode = c05Nodes[g.rng.Intn(2)]
 			if g.rng.Intn(4) > 0 {
-				cur.Ra = g.anyR()
-				if r := g.api[cur.Ra]; r != nil && r.Node != "" {
-					cur.PNode = r.Node
-				}
+				cur.Ra = g.likelyR()
+				cur.PNode = g.nodeOf(cur.Ra)
 			}
 		}
 		g.emit(c05Op{Op: "podAdd", c05PodObj: *cur})
@@ -772,7 +808,7 @@ func (g *c05Gen) podStep() {
 	}
 	switch k := g.rng.Intn(10); {
 	case cur.PNode == "" && k < 6: // Reserve on some reservation (the generator does not know which would be nominated)
-		u := g.anyR()
+		u := g.likelyR()
 		g.pasm[id] = u
 		g.emit(c05Op{Op: "assume", R: u, c05PodObj: *cur})
 	case cur.PNode != "" && k < 2: // in-place resize
@@ -781,7 +817,7 @@ func (g *c05Gen) podStep() {
 		g.emit(c05Op{Op: "podUpdate", c05PodObj: *cur, Old: &old})
 	case cur.PNode != "" && k == 2: // annotation re-pointed to another reservation / removed
 		old := *cur
-		cur.Ra = []string{"", g.anyR()}[g.rng.Intn(2)]
+		cur.Ra = []string{"", g.likelyR(), g.likelyR()}[g.rng.Intn(3)]
 		g.emit(c05Op{Op: "podUpdate", c05PodObj: *cur, Old: &old})
 	case cur.PNode != "" && k == 3: // resync
 		old := *cur
@@ -814,7 +850,7 @@ func (g *c05Gen) queryStep() {
 	case 0, 1:
 		aff = "sel"
 	case 2:
-		aff = "name:" + g.anyR()
+		aff = "name:" + g.likelyR()
 	}
 	switch g.rng.Intn(4) {
 	case 0:
@@ -822,11 +858,11 @@ func (g *c05Gen) queryStep() {
 		if g.rng.Intn(2) == 0 {
 			pre = g.vec(3, true)
 		}
-		g.emit(c05Op{Op: "fit", R: g.anyR(), Pre: pre, c05PodObj: q})
+		g.emit(c05Op{Op: "fit", R: g.likelyR(), Pre: pre, c05PodObj: q})
 	case 1:
 		g.emit(c05Op{Op: "match", Aff: aff, c05PodObj: q})
 	default:
-		g.emit(c05Op{Op: "nominate", Aff: aff, Node: c05Nodes[g.rng.Intn(2)], c05PodObj: q})
+		g.emit(c05Op{Op: "nominate", Aff: aff, Node: g.nodeOf(g.likelyR()), c05PodObj: q})
 	}
 }
 
@@ -842,6 +878,135 @@ func c05Random(rng *rand.Rand, n int, big, ext bool) []c05Op {
 			g.queryStep()
 		}
 	}
+	return g.out
+}
+
+// directed random histories for (L): one available reservation whose reserved dimension set keeps changing
+// (restricted options, policy, status.allocatable) while pods are assigned, resized, moved and released
+func c05LedgerScenario(rng *rand.Rand, big bool) []c05Op {
+	g := &c05Gen{rng: rng, big: big, api: map[string]*c05Op{}, asm: map[string]string{}, pods: map[string]*c05PodObj{}, pasm: map[string]string{}, nR: 2, nP: 4}
+	dims := func() c05Vec {
+		v := g.vec(3, true)
+		if g.rng.Intn(3) == 0 {
+			v = c05Vec{"cpu": g.q(3), "memory": g.q(3)}
+		}
+		return v
+	}
+	ropts := func() []string {
+		return [][]string{nil, {"cpu"}, {"memory"}, {"cpu", "memory"}, {"pods"}}[g.rng.Intn(5)]
+	}
+	pol := func() string { return []string{"Restricted", "Restricted", "Aligned", "Default"}[g.rng.Intn(4)] }
+	for i := 1; i <= 2; i++ {
+		r := &c05Op{R: fmt.Sprintf("r%d", i), Node: "n1", Phase: "Available", Policy: pol(), Alloc: dims(), Ropts: ropts(), Reserved: c05Vec{}, Owners: []c05Owner{{}}}
+		g.api[r.R] = r
+		g.emit(g.robj("rAdd", r))
+	}
+	for len(g.out) < 16 {
+		id := fmt.Sprintf("p%d", 1+g.rng.Intn(g.nP))
+		cur := g.pods[id]
+		u := fmt.Sprintf("r%d", 1+g.rng.Intn(2))
+		switch k := g.rng.Intn(10); {
+		case cur == nil && k < 5: // first seen bound and holding the reservation
+			cur = g.podObj(id)
+			cur.PNode, cur.Ra = "n1", u
+			g.pods[id] = cur
+			g.emit(c05Op{Op: "podAdd", c05PodObj: *cur})
+		case cur == nil: // scheduled here: Reserve, then the bind is observed
+			cur = g.podObj(id)
+			g.pods[id] = cur
+			g.emit(c05Op{Op: "assume", R: u, c05PodObj: *cur})
+			old := *cur
+			cur.PNode, cur.Ra = "n1", u
+			g.emit(c05Op{Op: "podUpdate", c05PodObj: *cur, Old: &old})
+		case k < 4: // the reserved dimension set changes
+			r := g.api[u]
+			switch g.rng.Intn(3) {
+			case 0:
+				r.Ropts = ropts()
+			case 1:
+				r.Alloc = dims()
+			default:
+				r.Policy = pol()
+			}
+			g.emit(g.robj("rUpdate", r))
+		case k == 4: // resize
+			old := *cur
+			cur.Req = g.vec(3, false)
+			g.emit(c05Op{Op: "podUpdate", c05PodObj: *cur, Old: &old})
+		case k == 5: // moved to the other reservation
+			old := *cur
+			cur.Ra = u
+			g.emit(c05Op{Op: "podUpdate", c05PodObj: *cur, Old: &old})
+		case k == 6:
+			delete(g.pods, id)
+			g.emit(c05Op{Op: "podDelete", c05PodObj: *cur})
+		default:
+			q := g.podObj("p4")
+			g.emit(c05Op{Op: "fit", R: u, Pre: c05Vec{}, c05PodObj: *q})
+		}
+	}
+	return g.out
+}
+
+// directed random histories for (O) / (M): allocate-once reservations on one node, a first owner takes one, other
+// pods (with and without reservation affinity) ask for a nomination before and after the reservation is refreshed
+func c05OnceScenario(rng *rand.Rand) []c05Op {
+	g := &c05Gen{rng: rng, api: map[string]*c05Op{}, asm: map[string]string{}, pods: map[string]*c05PodObj{}, pasm: map[string]string{}, nR: 2, nP: 4}
+	n := c05Nodes[g.rng.Intn(2)]
+	nres := 1 + g.rng.Intn(2)
+	for i := 1; i <= nres; i++ {
+		r := &c05Op{R: fmt.Sprintf("r%d", i), Node: n, Phase: "Available", Policy: []string{"Default", "Aligned", "Restricted"}[g.rng.Intn(3)], Once: g.rng.Intn(4) > 0,
+			Alloc: c05Vec{"cpu": 3, "memory": 3}, Reserved: c05Vec{}}
+		r.Owners, r.Bad = g.owners()
+		if g.rng.Intn(2) == 0 {
+			r.Owners, r.Bad = []c05Owner{{}}, false
+		}
+		g.api[r.R] = r
+		g.emit(g.robj("rAdd", r))
+	}
+	ask := func() {
+		q := g.podObj(fmt.Sprintf("p%d", 1+g.rng.Intn(g.nP)))
+		q.Req = c05Vec{"cpu": 1}
+		aff := []string{"", "sel", "sel", "name:r1", "name:r2"}[g.rng.Intn(5)]
+		g.emit(c05Op{Op: "nominate", Aff: aff, Node: n, c05PodObj: *q})
+	}
+	ask()
+	for len(g.out) < 14 {
+		id := fmt.Sprintf("p%d", 1+g.rng.Intn(g.nP))
+		u := fmt.Sprintf("r%d", 1+g.rng.Intn(nres))
+		cur := g.pods[id]
+		switch k := g.rng.Intn(8); {
+		case cur == nil && k < 3:
+			cur = g.podObj(id)
+			cur.Req = c05Vec{"cpu": 1}
+			g.pods[id] = cur
+			g.pasm[id] = u
+			g.emit(c05Op{Op: "assume", R: u, c05PodObj: *cur})
+		case cur == nil && k == 3:
+			cur = g.podObj(id)
+			cur.Req = c05Vec{"cpu": 1}
+			cur.PNode, cur.Ra = n, u
+			g.pods[id] = cur
+			g.emit(c05Op{Op: "podAdd", c05PodObj: *cur})
+		case cur != nil && g.pasm[id] != "" && k < 3: // bind observed
+			old := *cur
+			cur.PNode, cur.Ra = n, g.pasm[id]
+			delete(g.pasm, id)
+			g.emit(c05Op{Op: "podUpdate", c05PodObj: *cur, Old: &old})
+		case cur != nil && g.pasm[id] != "" && k == 3: // bind failed
+			g.emit(c05Op{Op: "forget", R: g.pasm[id], c05PodObj: *cur})
+			delete(g.pasm, id)
+			delete(g.pods, id)
+		case cur != nil && g.pasm[id] == "" && k == 4:
+			delete(g.pods, id)
+			g.emit(c05Op{Op: "podDelete", c05PodObj: *cur})
+		case k == 5: // status update / resync of the reservation (refreshes the indexes)
+			g.emit(g.robj("rUpdate", g.api[u]))
+		default:
+			ask()
+		}
+	}
+	ask()
 	return g.out
 }
 
@@ -953,15 +1118,19 @@ func TestVerifC05(t *testing.T) {
 		return
 	}
 	c05FitGrid(run, 3)
-	n, length, nfit := 150, 40, 100
+	n, length, nfit := 120, 40, 100
 	if vu.Thorough() {
-		n, length, nfit = 2500, 60, 2000
+		n, length, nfit = 1500, 60, 1500
 	}
 	rng := vu.Rand(5)
 	c05FitRandom(rng, run, nfit, 3)
 	c05FitRandom(rng, run, nfit/2, 1000000)
 	for i := 0; i < n; i++ {
 		run(c05Random(rng, length, i%4 == 3, vu.EnvInt("VERIF_C05_EXT", 0) == 1))
+	}
+	for i := 0; i < n; i++ {
+		run(c05LedgerScenario(rng, i%3 == 2))
+		run(c05OnceScenario(rng))
 	}
 	t.Logf("C05: %d segments, %d events", rec.Segments(), rec.Events())
 }
